@@ -48,6 +48,7 @@ def parse(s):
         elif tok.startswith('-#'): out.append(('rm', int(tok[2:])))
         elif tok.startswith('-k'): out.append(('rmk', int(tok[2:])))
         elif tok.startswith('#') and tok.endswith(':=fn'): out.append(('repc', int(tok[1:-4])))
+        elif tok.startswith('#') and tok.endswith(':=self'): out.append(('selfrep', int(tok[1:-6])))
         elif tok.startswith('#'): j, b = tok[1:].split(':='); out.append(('rep', int(j), b))
         elif tok.endswith('=None'): out.append(('unset', tok[1:-5]))
         elif tok.startswith('.'): out.append(('set', tok[1:]))
